@@ -113,6 +113,8 @@ def carry (ps : List Pend) (m rid part first last ty : Nat) : List Pend :=
   let sent := (List.range (last + 1 - first)).foldl (fun (acc : List Pend) i =>
     (markFirst (fun p => p.m == m && p.part == part && p.off == i + first && p.stage == 0 && p.st == ty)
       (fun p => { p with stage := 1, rid := rid }) acc.reverse).reverse) ps
+  -- (a renew batch, type 4, is not a final acknowledgement: it replaces no decision, nothing is dropped for it)
+  if ty == 4 then sent else
   sent.map (fun p => if p.m == m && p.part == part && covers first last p.off && p.stage == 0
                      then { p with lost := true } else p)
 
@@ -191,7 +193,11 @@ def apply (s : St) : Ev → St
       { s with confirmed := ((s.pend.filter (fun p => p.m == m && p.part == part && p.stage == 2 && (p.st == 1 || p.st == 3))).map
                                (fun p => (p.part, p.off, t))) ++ s.confirmed,
                pend := s.pend.filter (fun p => !(p.m == m && p.part == part && p.stage == 2)) }
-    else { s with pend := s.pend.map (fun p => if p.m == m && p.part == part then { p with stage := 0, lost := true } else p) }
+    -- an acknowledge error for the partition: decisions in flight may have been dropped; and a record the member
+    -- renewed through the API whose partition is then refused (INVALID_RECORD_STATE after a leader move, a lost share
+    -- session, …) is no longer known to be held by the member: Close is not required to release it on the wire
+    else { s with pend := s.pend.map (fun p => if p.m == m && p.part == part then { p with stage := 0, lost := true } else p),
+                  openRecs := s.openRecs.filter (fun r => !(r.1 == m && r.2.1 == part && s.renewed.contains (m, part, r.2.2.1))) }
   | .flushStart m => { s with uncalled := s.uncalled.map (fun u => if u.1 == m then (u.1, u.2.1, true) else u) }
   | .flushEnd m _ => { s with uncalled := s.uncalled.map (fun u => if u.1 == m then (u.1, u.2.1, false) else u) }
   | .wireAck m rid part first last ty t =>
